@@ -86,6 +86,10 @@ def c03(ctx):
     ctx.assume('handlers leave *data_size <= max_data_size and the buffer NUL-terminated; queued events carry a valid command')
     sites = {}
     n_ob = 0
+    # the two flat-index helpers are summarised while the machines are extracted: their own bodies
+    # (bounds of both subscripts for all sizes; what they compute, on a small scope) are checked here
+    from .rules_fsm import flatidx
+    flatidx(ctx)
 
     def take(events, where):
         nonlocal n_ob
